@@ -307,6 +307,7 @@ pub fn run(ctx: &Ctx) -> i32 {
         (Tier::Thorough, false) => ctx.scaled(128),
         (Tier::Thorough, true) => ctx.scaled(16),
     };
+    let keys: u64 = ctx.extra.get("keys").and_then(|k| k.parse().ok()).unwrap_or(keys);
     let multi_per_key = 2000usize;
     let mut units = Vec::new();
     const CH: usize = 4096;
